@@ -17,6 +17,18 @@ CHECKS = {
          "Conservation is an invariant of every step of every run: the model is checked exhaustively and every recorded step of instruction-stepped, block-stepped and jit runs (incl. run_frame calls) is checked against it using counters that do not depend on device semantics.",
          "Trusted: TLC, the three clock-counter hooks and the CPU-cycle hook. The frame clause assumes no single step is longer than the vertical blanking period (TLC shows it false otherwise; see DESIGN 6).",
          "DESIGN.md 5/C09"),
+ "C10": ("TLC theorems on Machine.tla's memory map (partition, injective storage keys, constant unmapped regions, ROM immutable) + cell map computed by TLC from MRead/MWrite (Gen_Bus) driving a write/probe sweep of the real bus + random bus histories over all implemented I/O registers validated by TLC against Machine.tla (Trace_Machine)",
+         "The map is a finite function: its algebraic laws are checked by TLC on all 65536 addresses and the code is swept against the exported map (every non-device address as target; all 65536 probes per target in the thorough tier); device registers are covered by validated histories.",
+         "Trusted: TLC, Machine.tla's map as the reading of the documented regions (Dev_EchoZero: echo RAM reads 0), the sweep's shadow store. P1 bits 6-7 and STAT bit 7 are masked out of comparisons.",
+         "DESIGN.md 5/C10"),
+ "C11": ("TLC: index-bound invariants over every (type, ROM size, RAM size) x register state (Thm_Bus IndexBounds, MC_Cart InBounds) + every configuration loaded through Core::from_rom_file and swept (register lattice x addresses x 4 access kinds) in isolated workers with overflow checks on + edge-case instructions validated against Machine.tla",
+         "At model level the property is 'every access is enabled and its physical index is inside the cartridge'; on the code the observation is completion of each access in an isolated process, complete over configurations (504) and, in the thorough tier, over all addresses.",
+         "Trusted: TLC, process isolation by fork (a dead worker is attributed to the configuration it announced). Silent out-of-bounds reads that neither crash nor change a compared value are out of reach (slice indexing is bounds-checked in this build).",
+         "DESIGN.md 5/C11"),
+ "C12": ("TLC model checking of MC_Cart (protocol laws as invariants of every reachable register state, all types and sizes) + complete register-space transition relation exported by TLC (Gen_Cart, 12.4 M transitions) replayed on bank-tagged images + random write/read histories validated against Machine.tla",
+         "The controller is a small finite state machine: its complete transition relation (every register state x window x written byte) is executed on the code for the 2 MiB/32 KiB cartridges, and a register lattice on every other size.",
+         "Trusted: TLC, Cart.tla as the reading of the register protocol (two-mode MBC1 description with bank 0 fixed at 0x0000-0x3FFF, as the statement says), the bank tags of the harness images. RAM-enable gating is not emulated (Dev_NoRamGate).",
+         "DESIGN.md 5/C12"),
  "C13": ("TLC: theorems (closed form = per-clock machine, additivity, DIV/period/TAC-edge laws) and MC_Timer (write/advance interleavings in lock-step with a per-clock shadow) + recorded histories (bus writes, batches 1..100000, phases via hook, partition runs) validated by Trace_Timer",
          "Batching independence is additivity of the specification (checked by TLC) plus conformance of every recorded batch to it; partition runs deliver the same scenario under 8 partitions.",
          "Trusted: TLC, Timer.tla, the divider-phase hook. A DIV write while the selected bit is high may or may not clock TIMA (statement silent): both accepted.",
